@@ -464,7 +464,7 @@ func replay(path string) int {
 		}
 	}
 	if v.Property == "C12" {
-		for variant := 0; variant < 8; variant++ {
+		for variant := 0; variant < 9; variant++ {
 			for _, ks := range orderedSubsets() {
 				conds := c12Conds(ks, variant)
 				if "C12/"+condStr(conds) != v.Scenario {
